@@ -256,6 +256,7 @@ type cluWorld struct {
 	ccfg    coretypes.Config
 	etcd    *simetcd.Server
 	engines map[string]*simengine.Node
+	shadow  *shadowPlugin // a second plugin (only where a harness sets it before boot)
 	core    *coreInstance
 	mon     *lockMon
 	seenV   map[string]bool
@@ -361,6 +362,9 @@ func (w *cluWorld) boot(prevWAL string) *coreInstance {
 	plugin := cpumem.NewPluginWithStore(w.ccfg, pkv)
 	mgr, _ := cobalt.New(w.ccfg)
 	mgr.AddPlugins(plugin)
+	if w.shadow != nil {
+		mgr.AddPlugins(w.shadow)
+	}
 	ci.walDir = filepath.Join(w.tmp, fmt.Sprintf("inst%d", ci.inst.ID))
 	_ = os.MkdirAll(ci.walDir, 0o755)
 	cfg := w.ccfg
